@@ -396,3 +396,64 @@ Fixpoint rmwb (h got : bool) (l : list ev) : bool :=
 Definition stress_ok (workers pairs : N) (dones : list N) (counter : N) (free : nat) : bool :=
   N.eqb (N.of_nat (length dones)) workers && forallb (N.eqb pairs) dones
   && N.eqb counter (workers * pairs) && Nat.eqb free 1.
+
+(* ------------------------------------------------------------------------------------------ *)
+(* A session with a BATCH of processes: Coordinator.Execute(ctx, [p0; ..; p(n-1)], ...) - "array of
+   processes can be passed if all the processes have to have the same peer subset" (the bitcoin executor
+   passes one signing process per transaction input; a key refresh may reshare the ECDSA and the FROST
+   key in one session).  Each process works on its own key-share store (the relayer's ECDSA store, its
+   FROST store; in the correspondence run: a store of its own per process), so there is one ledger per
+   process.  Execute's cleanup - and its refusal of a duplicate - is a loop over the processes:
+        for _, process := range tssProcesses { process.Stop() }
+   [PerIteration] = what the code does: the i-th call stops the i-th process.  [SharedVariable] = one
+   deferred closure per process that captures the range variable itself (go 1.21: ONE variable for the
+   whole loop) and runs after the loop has ended: every call stops the LAST process.             *)
+Inductive capture := PerIteration | SharedVariable.
+
+Definition stop_targets (c : capture) (n : nat) : list nat :=
+  match c with
+  | PerIteration => seq 0 n
+  | SharedVariable => repeat (n - 1) n
+  end.
+
+(* the kinds that hold the lock from their constructor until Stop *)
+Definition constructor_locks (k : kind) : bool :=
+  match k with FrostKeygen | EcdsaResharing | FrostResharing => true | _ => false end.
+
+(* a FURTHER Stop on the same object: the ECDSA keygen remembers that it has given the lock back, the
+   constructor-locking kinds unlock again, signing never unlocks *)
+Definition stop_again_events (k : kind) : list ev := if constructor_locks k then [U] else [].
+
+Definition stop_events_n (k : kind) (ran : bool) (n : nat) : list ev :=
+  match n with
+  | O => []
+  | S m => stop_events New k ran ++ flat_map (fun _ => stop_again_events k) (seq 0 m)
+  end.
+
+(* the ledger of one process of kind k in a session that ends with outcome o, on which Stop is called
+   nstop times ([session_events New k o] is the case nstop = 1) *)
+Definition session_events_n (k : kind) (o : outcome) (nstop : nat) : list ev :=
+  ctor_events k ++
+  match o with
+  | ConstructorFails => []
+  | Refused => stop_events_n k false nstop
+  | _ => (if run_called o then run_events k o else []) ++
+         (if run_again o then run_events k o else []) ++ stop_events_n k (run_called o) nstop
+  end.
+
+(* one ledger per process of the batch: process i is stopped once per Stop call that acts on it *)
+Definition batch_ledgers (c : capture) (ks : list kind) (o : outcome) : list (list ev) :=
+  map (fun ik => session_events_n (snd ik) o (count_occ Nat.eq_dec (stop_targets c (length ks)) (fst ik)))
+      (combine (seq 0 (length ks)) ks).
+
+(* every process of a batch gets the same start message and meets the same end of the session *)
+Definition batch_feasible (ks : list kind) (o : outcome) : bool := forallb (fun k => feasible k o) ks.
+
+(* THE JUDGE of a batch: the ledger of EVERY process passes the judge of a session of its kind - no
+   fatal unlock, the lock free at the end, as many unlocks as locks, accesses guarded *)
+Fixpoint batch_ledgers_ok (ks : list kind) (ls : list (list ev)) : bool :=
+  match ks, ls with
+  | [], [] => true
+  | k :: ks', l :: ls' => session_ok k l && batch_ledgers_ok ks' ls'
+  | _, _ => false
+  end.
